@@ -170,7 +170,11 @@ def gen_case(rng, k):
     pat = impl.pattern_params(rng, rmax=6.0)
     c = int(np.ceil(pat["search"]))
     n = int(rng.integers(1, 41)) if k % 3 else int(rng.integers(1, 8))
-    peaks = np.stack([rng.integers(-c, shape[0] + c, n), rng.integers(-c, shape[1] + c, n)], axis=1)
+    reach = c if k % 3 else 3 * c   # every third case: windows partly and entirely outside the frame, on all sides
+    peaks = np.stack([rng.integers(-reach, shape[0] + reach, n), rng.integers(-reach, shape[1] + reach, n)], axis=1)
+    if k % 3 == 0 and n >= 3:   # entirely beyond the bottom / right edge by less than a window
+        peaks[n // 2] = (shape[0] + c + int(rng.integers(1, 2 * c)), int(rng.integers(0, shape[1])))
+        peaks[n // 2 - 1] = (int(rng.integers(0, shape[0])), shape[1] + c + int(rng.integers(1, 2 * c)))
     bufs = sorted({1, int(rng.integers(1, n + 4)), int(rng.integers(1, n + 4)), n + 3, max(1, n - 1)})
     keep = np.sort(rng.choice(n, size=int(rng.integers(1, n + 1)), replace=False))
     return {"seed": int(rng.integers(1 << 30)), "shape": list(shape),
